@@ -18,6 +18,7 @@ import (
 	"strings"
 	"time"
 
+	"verif/checker/internal/effects"
 	"verif/checker/internal/load"
 	"verif/checker/internal/report"
 )
@@ -140,6 +141,10 @@ func runProperty(id, tier string, seed int64, prog *load.Program, dump bool, onl
 			return 2
 		}
 	}
+	// Effect summaries are computed before any rule runs: they install the
+	// pure-call canonicalisation used by access paths, so a rule's verdict
+	// cannot depend on which rules ran before it.
+	effects.Of(prog)
 	for _, pk := range prog.Pkgs {
 		run.Packages = append(run.Packages, pk.PkgPath)
 	}
